@@ -26,12 +26,26 @@ def getAllCreatorsCompIDs():
             return
 
     componentIDFileSuffix = "_component_ids.json"
-    for file in os.listdir(componentsConfigPath):
+    try:
+        files = os.listdir(componentsConfigPath)
+    except OSError as e:
+        print(f"Failed to read PEL creators components config path: {e}", file=sys.stderr)
+        return
+
+    for file in files:
         if componentIDFileSuffix not in file:
             continue
-        with open(os.path.join(componentsConfigPath, file), 'r') as fileFd:
-            creatorID = file[0:file.find(componentIDFileSuffix)]
-            componentIDs[creatorID] = json.load(fileFd)
+        # A file that cannot be read must not abort the load half way: the
+        # first PEL of the process would fail and every later one would be
+        # displayed without the names of the files not reached yet.
+        try:
+            with open(os.path.join(componentsConfigPath, file), 'r') as fileFd:
+                ids = json.load(fileFd)
+        except (OSError, ValueError) as e:
+            print(f"Failed to read component IDs file {file}: {e}", file=sys.stderr)
+            continue
+        creatorID = file[0:file.find(componentIDFileSuffix)]
+        componentIDs[creatorID] = ids
 
 def getDisplayCompID(componentID: int, creatorID: str) -> str:
     """
